@@ -82,6 +82,24 @@ func (vc *VC) mergeNormals(n int, outs []Outcome) []Outcome {
 	if len(ns) <= 1 {
 		return outs
 	}
+	// paths that differ in the heap are kept apart: an `ite` over heap arrays defeats quantifier triggers
+	for _, s := range ns[1:] {
+		if s.alloc != ns[0].alloc || s.epoch != ns[0].epoch {
+			return outs
+		}
+		for c, t := range s.heap {
+			if t0, ok := ns[0].heap[c]; ok && t0 != t {
+				return outs
+			} else if !ok && t != vc.initialSym(s, c) {
+				return outs
+			}
+		}
+		for c, t0 := range ns[0].heap {
+			if _, ok := s.heap[c]; !ok && t0 != vc.initialSym(ns[0], c) {
+				return outs
+			}
+		}
+	}
 	m := vc.mergeStates(n, ns)
 	return append(rest, Outcome{kind: oNormal, st: m})
 }
@@ -89,14 +107,25 @@ func (vc *VC) mergeNormals(n int, outs []Outcome) []Outcome {
 func (vc *VC) mergeStates(n int, ss []*State) *State {
 	m := ss[0].clone()
 	m.pc = append([]string(nil), ss[0].pc[:n]...)
+	m.pcG = append([]bool(nil), ss[0].pcG[:n]...)
 	conds := make([]string, len(ss))
 	for i, s := range ss {
-		d := smtAnd(s.pc[n:]...)
+		var guards, facts []string
+		for j := n; j < len(s.pc); j++ {
+			if s.pcG[j] {
+				guards = append(guards, s.pc[j])
+			} else {
+				facts = append(facts, s.pc[j])
+			}
+		}
 		b := vc.fresh("br", "Bool")
-		m.pc = append(m.pc, smtEq(b, d))
+		m.assume(smtEq(b, smtAnd(guards...)))
+		for _, f := range facts {
+			m.assume(smtImp(b, f))
+		}
 		conds[i] = b
 	}
-	m.pc = append(m.pc, smtOr(conds...))
+	m.assume(smtOr(conds...))
 	// env
 	objs := map[types.Object]bool{}
 	for _, s := range ss {
@@ -560,10 +589,10 @@ func (vc *VC) execIf(st *State, x *ast.IfStmt) []Outcome {
 	var outs []Outcome
 	vc.pathBudget(x)
 	thenSt := st.clone()
-	thenSt.assume(c)
+	thenSt.assumeGuard(c)
 	outs = append(outs, vc.exec(thenSt, x.Body)...)
 	elseSt := st.clone()
-	elseSt.assume(smtNot(c))
+	elseSt.assumeGuard(smtNot(c))
 	if x.Else != nil {
 		outs = append(outs, vc.exec(elseSt, x.Else)...)
 	} else {
@@ -624,16 +653,16 @@ func (vc *VC) execSwitch(st *State, x *ast.SwitchStmt, label string) []Outcome {
 		if i != defIdx {
 			s := st.clone()
 			for _, p := range prev {
-				s.assume(p)
+				s.assumeGuard(p)
 			}
-			s.assume(conds[i])
+			s.assumeGuard(conds[i])
 			prev = append(prev, smtNot(conds[i]))
 			entry = append(entry, s)
 		} else {
 			s := st.clone()
 			for j := range clauses {
 				if j != defIdx {
-					s.assume(smtNot(conds[j]))
+					s.assumeGuard(smtNot(conds[j]))
 				}
 			}
 			entry = append(entry, s)
@@ -657,7 +686,7 @@ func (vc *VC) execSwitch(st *State, x *ast.SwitchStmt, label string) []Outcome {
 	if defIdx < 0 {
 		s := st.clone()
 		for j := range clauses {
-			s.assume(smtNot(conds[j]))
+			s.assumeGuard(smtNot(conds[j]))
 		}
 		outs = append(outs, Outcome{kind: oNormal, st: s})
 	}
@@ -720,13 +749,13 @@ func (vc *VC) execTypeSwitch(st *State, x *ast.TypeSwitchStmt) []Outcome {
 		s := st.clone()
 		if i == defIdx {
 			for _, ac := range allConds {
-				s.assume(smtNot(ac))
+				s.assumeGuard(smtNot(ac))
 			}
 		} else {
 			for _, p := range prev {
-				s.assume(p)
+				s.assumeGuard(p)
 			}
-			s.assume(c.cond)
+			s.assumeGuard(c.cond)
 			prev = append(prev, smtNot(c.cond))
 		}
 		if bindName != nil {
@@ -758,7 +787,7 @@ func (vc *VC) execTypeSwitch(st *State, x *ast.TypeSwitchStmt) []Outcome {
 	if defIdx < 0 {
 		s := st.clone()
 		for _, ac := range allConds {
-			s.assume(smtNot(ac))
+			s.assumeGuard(smtNot(ac))
 		}
 		outs = append(outs, Outcome{kind: oNormal, st: s})
 	}
@@ -955,6 +984,7 @@ func (vc *VC) havocMods(st *State, ms modSet) {
 }
 
 func (vc *VC) addAllocMono(st *State, old, nw string) {
+	st.assume("(not (select " + nw + " 0))")
 	st.assume("(forall ((r Int)) (! (=> (select " + old + " r) (select " + nw + " r)) :pattern ((select " + nw + " r))))")
 }
 
@@ -1053,6 +1083,9 @@ func (vc *VC) loopCommon(st *State, lc loopCtx, atHead func(s *State), cond func
 			vc.oblige(st, "inv-init", fmt.Sprintf("loop%d.%s", lc.ord, inv.Label), inv.Text, lc.pos, t)
 		}
 	}
+	// the function's frame is an implicit invariant of every loop: cells of objects allocated at function entry
+	// and not named by `modifies` still have their entry value (holds before the loop by the code so far)
+	useFrameInv := vc.contract != nil && vc.contract.HasMod && !ms.all && vc.inlineDepth == 0 && st.epoch == 0
 	// 3. arbitrary iteration
 	h := st.clone()
 	f1, e1 := vc.nfresh, vc.nepoch
@@ -1075,6 +1108,18 @@ func (vc *VC) loopCommon(st *State, lc loopCtx, atHead func(s *State), cond func
 	if implicitInv != nil {
 		h.assume(implicitInv(h))
 	}
+	if useFrameInv {
+		if whole, goals := vc.frameGoals(h, ms.comps); !whole {
+			for _, comp := range sortedKeys(goals) {
+				// established on entry?
+				_, g0 := vc.frameGoals(st, map[string]bool{comp: true})
+				if g, ok := g0[comp]; ok {
+					vc.oblige(st, "inv-init", fmt.Sprintf("loop%d.frame.%s", lc.ord, mangle(comp)), "frame of "+comp+" holds at loop entry", lc.pos, g)
+				}
+				h.assume(goals[comp])
+			}
+		}
+	}
 	var variant0 string
 	if lc.spec != nil {
 		for _, inv := range lc.spec.Invariants {
@@ -1088,10 +1133,10 @@ func (vc *VC) loopCommon(st *State, lc loopCtx, atHead func(s *State), cond func
 	c := cond(h)
 	var outs []Outcome
 	exitSt := h.clone()
-	exitSt.assume(smtNot(c))
+	exitSt.assumeGuard(smtNot(c))
 	outs = append(outs, Outcome{kind: oNormal, st: exitSt})
 	bodySt := h.clone()
-	bodySt.assume(c)
+	bodySt.assumeGuard(c)
 	vc.pathBudget(nil)
 	for _, o := range body(bodySt) {
 		switch {
@@ -1104,6 +1149,13 @@ func (vc *VC) loopCommon(st *State, lc loopCtx, atHead func(s *State), cond func
 			}
 			if implicitInv != nil {
 				vc.oblige(s, "inv-keep", fmt.Sprintf("loop%d.implicit", lc.ord), "implicit range invariant", lc.pos, implicitInv(s))
+			}
+			if useFrameInv && s.epoch == 0 {
+				if whole, goals := vc.frameGoals(s, ms.comps); !whole {
+					for _, comp := range sortedKeys(goals) {
+						vc.oblige(s, "inv-keep", fmt.Sprintf("loop%d.frame.%s", lc.ord, mangle(comp)), "frame of "+comp+" is preserved by the loop body", lc.pos, goals[comp])
+					}
+				}
 			}
 			if lc.spec != nil {
 				for _, inv := range lc.spec.Invariants {
